@@ -2,6 +2,7 @@ package harness
 
 import (
 	"encoding/json"
+	"time"
 
 	"verifsim/simrt"
 )
@@ -48,8 +49,9 @@ func Minimise(spec *RunSpec, prop, sig string, opts RunOpts, budget int) (*RunSp
 	execs := 0
 	opts.StopOn = prop
 	opts.KeepLog = false
+	deadline := time.Now().Add(90 * time.Second)
 	test := func(c *RunSpec) bool {
-		if execs >= budget {
+		if execs >= budget || time.Now().After(deadline) {
 			return false
 		}
 		execs++
@@ -149,6 +151,71 @@ func Minimise(spec *RunSpec, prop, sig string, opts RunOpts, budget int) (*RunSp
 			}
 		}
 	}
+	if (cur.Scenario == "S-SHARE" || cur.Scenario == "S-SHARE-STMT") && cur.Extra != nil {
+		get := func(c *RunSpec) *ShareSpec { return ShareSpecOf(c) }
+		put := func(c *RunSpec, ss *ShareSpec) {
+			b, _ := json.Marshal(ss)
+			raw := json.RawMessage(b)
+			c.Extra = &raw
+		}
+		// empty whole programs (the task slots stay, so ids are stable), then single ops
+		for i := len(get(cur).Programs) - 1; i >= 0; i-- {
+			try(func(c *RunSpec) bool {
+				ss := get(c)
+				if len(ss.Programs[i]) == 0 {
+					return false
+				}
+				ss.Programs[i] = nil
+				put(c, ss)
+				return true
+			})
+		}
+		for i := range get(cur).Programs {
+			for j := len(get(cur).Programs[i]) - 1; j >= 0; j-- {
+				try(func(c *RunSpec) bool {
+					ss := get(c)
+					if j >= len(ss.Programs[i]) {
+						return false
+					}
+					ss.Programs[i] = append(ss.Programs[i][:j], ss.Programs[i][j+1:]...)
+					put(c, ss)
+					return true
+				})
+			}
+		}
+		try(func(c *RunSpec) bool {
+			ss := get(c)
+			if ss.NLogs == 0 && ss.NRefs <= 5 {
+				return false
+			}
+			if ss.NRefs > 5 {
+				ss.NRefs = 5
+			}
+			put(c, ss)
+			return true
+		})
+	}
+	// long schedules: remove chunks of segments (halves, quarters, ...) before single ones
+	if cur.Sched.Mode == "replay" && len(cur.Sched.Segs) > 40 {
+		for chunk := len(cur.Sched.Segs) / 2; chunk >= 8; chunk /= 2 {
+			for start := 0; start < len(cur.Sched.Segs); {
+				ok := try(func(c *RunSpec) bool {
+					if start >= len(c.Sched.Segs) {
+						return false
+					}
+					end := start + chunk
+					if end > len(c.Sched.Segs) {
+						end = len(c.Sched.Segs)
+					}
+					c.Sched.Segs = append(append([]simrt.Segment{}, c.Sched.Segs[:start]...), c.Sched.Segs[end:]...)
+					return true
+				})
+				if !ok {
+					start += chunk
+				}
+			}
+		}
+	}
 	for pass := 0; pass < 6; pass++ {
 		changed := false
 		// no final phase
@@ -242,7 +309,7 @@ func Minimise(spec *RunSpec, prop, sig string, opts RunOpts, budget int) (*RunSp
 			if len(cur.Sched.Segs) > 0 {
 				changed = try(func(c *RunSpec) bool { c.Sched.Segs = nil; return true }) || changed
 			}
-			for si := len(cur.Sched.Segs) - 1; si >= 0; si-- {
+			for si := len(cur.Sched.Segs) - 1; si >= 0 && len(cur.Sched.Segs) <= 200; si-- {
 				changed = try(func(c *RunSpec) bool {
 					if si >= len(c.Sched.Segs) {
 						return false
